@@ -1,3 +1,30 @@
-From MW Require Import Num.
-Theorem placeholder : True. Proof. exact I. Qed.
-Print Assumptions placeholder.
+(*  C10 — Prediction is read-only.
+   
+    PROVED for context-free bandits, every reachable state: predict / predict_expectations return a state that
+    differs from the one before at most in the generator and, for Thompson Sampling, in arm_to_expectation
+    (the stored copy of the last sample, whose keys stay the arm list); every other field - statistics, status,
+    arms, configuration, fitted flag - is identical (Leibniz equality).  For neighbourhood policies the model's
+    imp_query returns the implementation state unchanged by construction (the worker copies are discarded).
+    ..._partial: that no later call reads Thompson's stored sample is proved for fit (CFForget) and for the
+    query itself (NbrIndep.ts_predict_exp_mod_exp); the full "every later sequence of calls" statement is
+    checked by the queried-versus-unqueried twin relation on the implementation. *)
+From Coq Require Import List ZArith Bool Arith QArith Qcanon.
+From MW Require Import Num Assoc AssocFacts Rng Par CF CFInv CFClean CFForget CFSpec Matrix Lin Warm WarmInv Nbr NbrFacts NbrIndep Clu Tree Mab FacadeCF FacadeArms NumLaws QcInst.
+Import ListNotations.
+
+Theorem C10_query_changes_only_generator_and_last_sample_partial :
+  forall (R A G : Type) (N : Num R) (aeqb : A -> A -> bool) (RG : RngOps R G) 
+    (m : (@mab R A G)) (s : (@cf R A)) (cx : option (@ctxs R)) (orc : (@oracle R A)) (is_p : bool),
+  rng_lengths_ok RG ->
+  m_imp m = ICf s ->
+  mab_inv N m ->
+  let o := if is_p then Predict cx orc else PredictExp cx orc in
+  exists s' : (@cf R A),
+    m_imp (fst (step N aeqb RG m o)) = ICf s' /\
+    (c_kind s <> KThompson -> s' = s) /\
+    s' = set_exp s (c_exp s') /\
+    akeys (c_exp s') = c_arms s /\ m_fitted (fst (step N aeqb RG m o)) = m_fitted m.
+Proof. exact @query_keeps_model. Qed.
+Print Assumptions C10_query_changes_only_generator_and_last_sample_partial.
+
+
